@@ -1090,6 +1090,9 @@ def writeGraph(G, output_file, graph_type, file_format='autodetect'):
     if file_format == 'dot':
 
         G = G.to_networkx()
+        # the graph name becomes a quoted id of the dot file
+        if isinstance(getattr(G, 'name', None), str):
+            G.name = G.name.replace('\\', '\\\\').replace('"', '\\"')
         networkx.nx_pydot.write_dot(G, output_file)
 
     elif file_format == 'gml':
